@@ -139,6 +139,8 @@ def _aggregate(ctx, pydrex, case):
     ctx.cls(f"assemblage={case['assemblage']}")
     ctx.cls("custom_tensors" if case["custom"] else "builtin_tensors")
     ctx.check("shape", C.shape == (steps, 6, 6), case, shape=list(C.shape))
+    if case["seed"] % 4 == 0 and case["custom"]:
+        ctx.fresh_outputs("voigt_averages", mn.voigt_averages, minerals, list(phases), list(fracs), S, case=case)
     if C.shape != (steps, 6, 6):
         return
     ctx.check("symmetric", float(np.abs(C - np.swapaxes(C, 1, 2)).max()) <= tol, case)
